@@ -309,6 +309,10 @@ CHECKS['C13']['text'] += " Local error-building closures are followed (throw sit
 CHECKS['C17']['text'] += " A builder that copies a base's instance fields copies its has-tracked-fields flag; per-shot counts are added under (variable, outcome) exactly."
 CHECKS['C19']['text'] += " The module key resolves the path through the file system (lexical only after an error); load() empties stack, cache and order before the first module."
 CHECKS['C20']['text'] += " The binary-mode marker is removed before the \"./\" prefix is looked for."
+CHECKS['C07']['text'] += (" R07.12: on no path through an evaluator handler is the same child link evaluated by two different calls (a constant element and a loop over all "
+                          "elements included). R07.13: the analyser's constant folder may return an integer quotient for `/` only when the division is exact (one known finding).")
+CHECKS['C09']['text'] += " R09.3: every scope opened is closed on every normal path of the same function."
+CHECKS['C10']['text'] += " A record stored per declaration into an analyser table is built inside the loop that stores it."
 
 NOT_YET = "check not yet built in this round (framework under construction; see DESIGN.md §4 for the planned static rules)"
 
